@@ -84,7 +84,10 @@ Inductive case :=
 | CA (c : cfg) (seen : outcome)
 | CM (c : cls) (insts : list (list nat)) (seen_eq : list (nat * nat)) (seen_lab : list nat)
      (seen_keys : list bool)   (* per field: fields(cls).f.eq_key is not None *)
-| CH (c : cls) (start : list nat) (ops : list (op nat)) (seen : list hobs).
+| CH (c : cls) (start : list nat) (ops : list (op nat)) (seen : list hobs)
+(* construction of an instance of a class whose __attrs_post_init__ runs the program [post]
+   (OHash = hash(self), OSet = object.__setattr__), then a history without evolve / fresh *)
+| CP (c : cls) (start : list nat) (post ops : list (op nat)) (seen : list hobs).
 
 (** every field that takes part in the hash takes part in equality *)
 Definition hash_within_eq (c : cls) : bool :=
@@ -161,11 +164,45 @@ Definition check_hist (c : cls) (start : list nat) (ops : list (op nat)) (seen :
   | None => false
   end.
 
+(** the tail order of the generated __init__ found in the source of this run *)
+Definition ftail : list tail_ev := Gen.C04_consts.src_init_tail.
+Definition fconstruct_run (c : cls) (start : list nat) (post ops : list (op nat)) : list (mobs fhres) :=
+  construct_run nat fkey fts nat (fun v => v) fhres fH ftail c start post ops.
+
+(** The property on the observation alone: once construction has completed, and until the
+    first assignment after it, every [hash()] "equals the uncached value" of the field values
+    the instance holds then — whatever [__attrs_post_init__] did (hash [self], assign fields). *)
+Fixpoint apply_sets (vs : list nat) (ops : list (op nat)) : list nat :=
+  match ops with
+  | OSet n v :: r => apply_sets (upd nat vs n v) r
+  | _ :: r => apply_sets vs r
+  | [] => vs
+  end.
+Fixpoint uncached_pairs (c : cls) (vs : list nat) (ops : list (op nat)) (seen : list hobs)
+  : list (fhres * nat) :=
+  match ops, seen with
+  | OHash :: r, HVal l _ _ :: sr => (fcompute c vs, l) :: uncached_pairs c vs r sr
+  | OSet _ _ :: _, _ => []
+  | _ :: r, _ :: sr => uncached_pairs c vs r sr
+  | _, _ => []
+  end.
+
+Definition check_construct (c : cls) (start : list nat) (post ops : list (op nat)) (seen : list hobs) : bool :=
+  Nat.eqb (length start) (length (flds c))
+  && match match_hist c (fconstruct_run c start post ops) seen with
+     | Some hl => respects hl
+     | None => false
+     end
+  && (if Nat.eqb (length seen) (length post + length ops)
+      then respects (uncached_pairs c (apply_sets start post) ops (skipn (length post) seen))
+      else true).
+
 Definition check_case (k : case) : bool :=
   match k with
   | CA c seen => outcome_eqb (outcome_of c) seen && total_ok c seen
   | CM c insts se sl sk => check_matrix c insts se sl sk
   | CH c start ops seen => check_hist c start ops seen
+  | CP c start post ops seen => check_construct c start post ops seen
   end.
 
 (** What the model says, for replay files. *)
@@ -180,6 +217,7 @@ Definition model_of (k : case) : mview :=
   | CM c insts _ _ _ => VM (if eqgen c then pred_eq c insts else map (fun i => (i, i)) (seq 0 (length insts)))
                          (map (fcompute c) insts)
   | CH c start ops _ => VH (frun c start ops) (hashed_idx 0 (flds c)) (keyed_idx fts 0 (flds c))
+  | CP c start post ops _ => VH (fconstruct_run c start post ops) (hashed_idx 0 (flds c)) (keyed_idx fts 0 (flds c))
   end.
 
 Lemma check_case_sound_A c seen : check_case (CA c seen) = true -> seen = outcome_of c.
